@@ -295,6 +295,31 @@ def stepW (w : World) (line : String) : World × String :=
   | ["names"] => (w, "names " ++ "|".intercalate (w.allNames.map (fun l => ",".intercalate l)))
   | ["live", hs] => (w, "live " ++ " ".intercalate ((words hs).map (fun h =>
       match parseHandle h with | some id => if w.isLive id then "1" else "0" | none => "?")))
+  | ["cmp", h1, h2] =>
+    match parseHandle h1, parseHandle h2 with
+    | some a, some b =>
+      let flags (eq lt gt : Bool) : String :=
+        s!"eq={eq} lt={lt} gt={gt} le={eq || lt} ge={eq || gt}"
+      match w.domObj a, w.domObj b with
+      | some (_, x), some (_, y) =>
+        (w, "cmp eq=" ++ toString (domEq x.canon y.canon) ++ s!" lt={domLt x.canon y.canon} gt={domLt y.canon x.canon}" ++
+          s!" le={leOf strLt x.canon.1 y.canon.1} ge={leOf strLt y.canon.1 x.canon.1} hash={x.canon.1 == y.canon.1}")
+      | _, _ =>
+        match w.cplxObj a, w.cplxObj b with
+        | some (_, x), some (_, y) =>
+          (w, "cmp " ++ flags (x.canon == y.canon) (ckeyLt x.canon y.canon) (ckeyLt y.canon x.canon) ++ s!" hash={x.canon == y.canon}")
+        | _, _ =>
+          match w.macroObj a, w.macroObj b with
+          | some (_, x), some (_, y) =>
+            (w, "cmp " ++ flags (x.canon == y.canon) (mkeyLt x.canon y.canon) (mkeyLt y.canon x.canon) ++ s!" hash={x.canon == y.canon}")
+          | _, _ =>
+            let rx (id : Nat) : Option (Obj RKey) :=
+              (w.node id).bind (fun n => if n.kind = .rxn then (w.rxns[n.cls]?).bind (fun cr => cr.reg.findId id) else none)
+            match rx a, rx b with
+            | some x, some y =>
+              (w, "cmp " ++ flags (x.canon == y.canon) (rkeyLt x.canon y.canon) (rkeyLt y.canon x.canon) ++ s!" hash={x.canon == y.canon}")
+            | _, _ => (w, "cmp incomparable")
+    | _, _ => (w, "bad-op")
   | ["set.turns", h, v] =>
     match parseHandle h, v.toInt? with
     | some id, some v =>
